@@ -103,7 +103,8 @@ Definition demo_acts : list action :=
    S 9; S 9; S 9; S 9; S 9; S 9; S 9; S 9;          (* lock 2, tail, head, pop, run item 1, the callout returns, next, unlock: back in lane 0 *)
    S 9; S 9].                                       (* next, unlock of lane 0 (its lock had cleared 7's DIRTY): 9 is idle *)
 
-Definition demo_final := run F2 (init_state F2) demo_acts.
+(* a notation, not a definition: the kernel must never be asked to convert the name with the (expensive) run *)
+Notation demo_final := (run F2 (init_state F2) demo_acts).
 
 (* the state holds functions (per lane, per thread): facts about the final state are computed pointwise *)
 Definition at_final {A} (f : gst -> A) (d : A) : A := match demo_final with Some s => f s | None => d end.
@@ -129,7 +130,7 @@ Proof.
                 (0, [1; 0], 2, [1; 0], 2) s E) as P1.
   pose proof (at_final_eq (fun s => (lst s 0, lst s 1, lst s 2, token s 0)) ([], [], [], Some None) ([], [], [], None) s E) as P2.
   cbv beta in P1, P2.
-  assert (E' : run F2 (init_state F2) demo_acts = Some s) by exact E.
+  pose proof E as E'.
   split.
   - apply (run_reach F2 demo_acts (init_state F2) s); [apply reach_init; reflexivity | vm_compute; reflexivity | exact E'].
   - split.
